@@ -178,7 +178,8 @@ def c01a(ck, prog):
     ok = len(drops) == 1 and not hdr_mut
     if ok:
         # ... for every HEAD response: once the HEAD test has answered yes, no return is reached around the drop
-        head_sw = [fa.sw_bb for fa in guards.facts_at(h, prog, drops[0]) if head_only(drops[0]) and getattr(fa, "sw_bb", None) is not None]
+        head_sw = [fa.sw_bb for fa in guards.facts_at(h, prog, drops[0]) if getattr(fa, "sw_bb", None) is not None
+                   and (fa.kind in ("boolphi", "boolcall", "cmp") or (fa.kind == "variant" and fa.allowed == {"HEAD"}))]       # the switch(es) that answered `the method is HEAD`
         for sb in set(head_sw):
             for tb, lab in h.succ(sb):
                 if h.dominates(tb, drops[0]) or tb == drops[0]:
